@@ -11,7 +11,8 @@ from csverif.astutil import (
     assignments_to, body_walk, compare_parts, conjuncts, const_eval, disjuncts, dotted, fn_calls, is_const, kwarg,
     NotConst, param_defaults, params, src, statements, walk_no_nested,
 )
-from csverif.q import FuncView, guarded_by, origin, dominating_conditions
+from csverif.astutil import nnf
+from csverif.q import FuncView, guarded_by, inline, origin, dominating_conditions
 
 
 def _c(node):
@@ -117,8 +118,9 @@ def scanner_obligations(ctx, rule_prefix: str = "") -> bool:
     # ---- R3: offset algebra
     r3 = True
     find = s.finds[0]
-    fst = s.fv.stmt_of(find)
-    pvar = dotted(fst.targets[0]) if isinstance(fst, ast.Assign) else None
+    # the match-index variable: the local every hay.find(needle, ..) result is bound to
+    pvars = {dotted(s.fv.stmt_of(c).targets[0]) for c in s.finds if isinstance(s.fv.stmt_of(c), ast.Assign) and s.fv.stmt_of(c).value is c}
+    pvar = next(iter(pvars)) if len(pvars) == 1 else None
     pos_defs = [(st, v) for st, v in assignments_to(f.node, "pos")] if True else []
     # the position variable: a local defined by fp.tell()
     posvar = None
@@ -128,17 +130,29 @@ def scanner_obligations(ctx, rule_prefix: str = "") -> bool:
             pos_st = st
     read_st = s.fv.stmt_of(s.read_call)
     for y in s.yields:
-        yv = origin(f.node, y.value) if y.value is not None else None
+        yv = inline(f.node, y.value, stop=frozenset(x for x in (posvar, pvar, s.carry, s.hay, s.block) if x)) if y.value is not None else None
         poly = sympoly(yv) if yv is not None else None
         ok = False
         detail = f"yield {src(yv)}: not of the form <tell before read> + <match index> - <carry length>"
+        # where len(<carry>) is evaluated (the yield itself or a temporary it uses), the carry must still be the one that
+        # was concatenated into the haystack: no rebinding of the carry between the concatenation and that statement
+        stale = False
+        if s.hay_def is not None:
+            cfg0 = s.cfg
+            evals = [y] + [st0 for st0 in statements(f.node) if isinstance(st0, ast.Assign) and any(isinstance(n0, ast.Call) and dotted(n0.func) == "len" and n0.args and dotted(n0.args[0]) == s.carry for n0 in ast.walk(st0.value))]
+            for ev in evals:
+                est = s.fv.stmt_of(ev) if not isinstance(ev, ast.stmt) else ev
+                for dst, _v in assignments_to(f.node, s.carry):
+                    if cfg0.has(dst) and cfg0.has(est) and cfg0.reaches(cfg0.node(s.hay_def), cfg0.node(dst)) and cfg0.reaches(cfg0.node(dst), cfg0.node(est), avoiding=[cfg0.node(s.hay_def)]) \
+                            and cfg0.reaches(cfg0.node(s.hay_def), cfg0.node(dst), avoiding=[cfg0.node(est)]):
+                        stale = True
         if poly is not None and posvar and pvar:
             base = SymPoly.atom(posvar) + SymPoly.atom(pvar)
             L = base - poly  # what is subtracted
             want_len = SymPoly.atom(f"len({s.carry})")
             if L == want_len:
-                ok = s.carry_first
-                detail = f"offset = {posvar} + {pvar} - len({s.carry}): exactly the length of the carry as concatenated"
+                ok = s.carry_first and not stale
+                detail = f"offset = {posvar} + {pvar} - len({s.carry}): exactly the length of the carry as concatenated" + ("; but the carry is rebound before its length is taken" if stale else "")
             else:
                 # some other expression X: every definition of the carry must have length X
                 atoms = L.atoms()
@@ -172,11 +186,24 @@ def scanner_obligations(ctx, rule_prefix: str = "") -> bool:
         r3 = r3 and ok
         _emit(ctx, P, "R3", "CURSOR", f, "yield " + src(y.value), ok, detail, y)
     # ---- R4: restart, carry bound, outer exits
-    inner = s.fv.enclosing(find, (ast.While,))
-    adv = inner is not None and pvar is not None and loops._find_advance(inner, pvar)
-    init = [v for st, v in assignments_to(f.node, pvar) if v is not None and not isinstance(v, ast.Call)] if pvar else []
-    _emit(ctx, P, "R4", "LOOP", f, f"{pvar} = {s.hay}.find(needle, {pvar} + 1)", bool(adv) and [_c(v) for v in init] == [-1],
-          f"search restarts strictly after the previous match={bool(adv)}; starts at {[src(v) for v in init]} (-1)")
+    # every search of a haystack starts at its beginning (p = -1 then find(.., p + 1), or find(needle[, 0])) and every later
+    # search restarts at the previous match + 1 - all bindings of the match index are of one of these forms
+    adv_finds, init_ok, bad_defs = [], True, []
+    for st, v in (assignments_to(f.node, pvar) if pvar else []):
+        if v is not None and _c(v) == -1:
+            continue
+        if isinstance(v, ast.Call) and any(v is c for c in s.finds):
+            start = v.args[1] if len(v.args) > 1 else kwarg(v, "start")
+            if start is None or _c(start) == 0:
+                continue  # first search of this haystack, from its beginning
+            if isinstance(start, ast.BinOp) and isinstance(start.op, ast.Add) and ((dotted(start.left) == pvar and _c(start.right) == 1) or (dotted(start.right) == pvar and _c(start.left) == 1)):
+                adv_finds.append(v)
+                continue
+        bad_defs.append(src(v) if v is not None else src(st)[:40])
+    inner = s.fv.enclosing(adv_finds[0], (ast.While,)) if adv_finds else None
+    adv = bool(adv_finds) and inner is not None and not bad_defs
+    _emit(ctx, P, "R4", "LOOP", f, f"{pvar} = {s.hay}.find(needle, {pvar} + 1)", adv,
+          f"every search restarts strictly after the previous match (or at the start of a new haystack)={adv}" + (f"; other bindings of {pvar}: {bad_defs}" if bad_defs else ""))
     for st, v in assignments_to(f.node, s.carry):
         if v is None:
             continue
@@ -203,8 +230,17 @@ def scanner_obligations(ctx, rule_prefix: str = "") -> bool:
     # ---- R5: limit tests
     n5 = 0
     for st in statements(f.node):
-        if isinstance(st, ast.If) and s.ps[3] in src(st.test):
-            for dj in disjuncts(st.test):
+        if isinstance(st, (ast.If, ast.While)) and s.ps[3] in src(st.test):
+            # the condition under which scanning stops: an `if` whose true branch leaves, or the negated loop header;
+            # which edge leaves is decided on the CFG (the edge from which the yield can no longer be reached this round)
+            cond = nnf(st.test, negate=isinstance(st, ast.While))
+            if isinstance(st, ast.If):
+                te, fe = s.cfg.edge_node(st, "true"), s.cfg.edge_node(st, "false")
+                ynodes = [s.cfg.node(s.fv.stmt_of(y)) for y in s.yields]
+                t_cont = any(s.cfg.reaches(te, yn) for yn in ynodes) and any(isinstance(x, (ast.Break, ast.Return, ast.Continue)) for b in st.orelse for x in ast.walk(b))
+                if t_cont or (not any(isinstance(x, (ast.Break, ast.Return)) for b in st.body for x in ast.walk(b)) and any(isinstance(x, (ast.Break, ast.Return)) for b in st.orelse for x in ast.walk(b))):
+                    cond = nnf(st.test, negate=True)
+            for dj in disjuncts(cond):
                 if s.ps[3] not in src(dj):
                     continue
                 n5 += 1
@@ -277,71 +313,192 @@ def run(ctx):
     r6(ctx)
 
 
+def _eval_order(node):
+    """Sub-expressions of a statement in (approximate) Python evaluation order: children before parents, left to right."""
+    out = []
+
+    def walk(n):
+        if isinstance(n, (ast.Lambda, ast.FunctionDef, ast.AsyncFunctionDef, ast.ClassDef)):
+            return
+        for c in ast.iter_child_nodes(n):
+            walk(c)
+        out.append(n)
+
+    walk(node)
+    return out
+
+
+def _decode_int(ctx, f, e):
+    """(bytes expression, size or None, byteorder, signed) if e decodes an integer from bytes, else None."""
+    if not isinstance(e, ast.Call):
+        return None
+    cal = ctx.rs.resolve_call(f, e)
+    if cal.kind == "func" and cal.func is not None and cal.func.fq == "utils.unpack" and e.args:
+        b = cal.bound
+        return (e.args[0], _c(b.get("size") if "size" in b else kwarg(e, "size")), _c(b.get("byteorder") if "byteorder" in b else kwarg(e, "byteorder")) or "little",
+                bool(_c(b.get("signed") if "signed" in b else kwarg(e, "signed")) or False))
+    if dotted(e.func) == "int.from_bytes" and e.args:
+        bo = e.args[1] if len(e.args) > 1 else kwarg(e, "byteorder")
+        return (e.args[0], None, _c(bo), bool(_c(kwarg(e, "signed")) or False))
+    return None
+
+
+def _le32(ctx, f, e) -> Optional[ast.AST]:
+    """If e decodes (4) bytes little-endian unsigned, the expression holding those bytes; else None."""
+    d = _decode_int(ctx, f, e)
+    if d is not None and d[1] in (4, None) and d[2] == "little" and not d[3]:
+        return d[0]
+    return None
+
+
 def r6(ctx):
+    """ArtifactKit scanner: located by role - the stream parameter, the position variable it seeks to, the 4-byte header
+    read, the self-offset test, the field reads on the matching path in evaluation order, the yielded record."""
+    from csverif.q import reaching_defs
+
     f = ctx.repo.func("artifact.iter_artifactkit_payloads")
     fv = FuncView.of(f.node)
     cfg = ctx.cfg(f)
     fobj = params(f.node)[0]
-    POS = next((dotted(s2.targets[0]) for s2 in statements(f.node) if isinstance(s2, ast.Assign) and isinstance(s2.value, ast.Call) and isinstance(s2.value.func, ast.Attribute)
-                and s2.value.func.attr == "tell" and dotted(s2.value.func.value) == fobj), "pos")
     ws = [s for s in statements(f.node) if isinstance(s, ast.While)]
     if len(ws) != 1:
-        ctx.ob("R6", "LOOP", f, "scan loop", False, f"{len(ws)} while loops")
+        ctx.undecided("R6", "LOOP", f, "scan loop", f"{len(ws)} while loops: the scanner is not one position loop any more")
         return
     w = ws[0]
     ok, detail, _ = loops.analyse_loop(ctx, f, w)
     ctx.ob("R6", "LOOP", f, "scan loop progress", ok, detail, w)
-    ups = [s for s in ast.walk(w) if isinstance(s, ast.AugAssign) and dotted(s.target) == POS]
-    ctx.ob("R6", "LOOP", f, "pos += 1", len(ups) == 1 and isinstance(ups[0].op, ast.Add) and _c(ups[0].value) == 1, f"position advances by {[src(u) for u in ups]} (exactly 1: every offset is tested)")
-    # header test: pos + 16 == u32-le(4 bytes read at pos)
-    tests = [s for s in ast.walk(w) if isinstance(s, ast.If) and any(isinstance(op, ast.Eq) and POS in {n.id for n in ast.walk(s.test) if isinstance(n, ast.Name)} for l, op, r in compare_parts(s.test))]
-    h_ok = False
-    detail = "no `pos + 16 == u32(header)` test"
-    reads = [c for c in ast.walk(w) if isinstance(c, ast.Call) and isinstance(c.func, ast.Attribute) and c.func.attr == "read" and dotted(c.func.value) == fobj]
-    reads.sort(key=lambda c: (c.lineno, c.col_offset))
-    for t in tests:
-        for l, op, r in compare_parts(t.test):
+    seeks = [c for c in ast.walk(w) if isinstance(c, ast.Call) and isinstance(c.func, ast.Attribute) and c.func.attr == "seek" and dotted(c.func.value) == fobj and len(c.args) == 1 and isinstance(c.args[0], ast.Name)]
+    if len(seeks) != 1:
+        ctx.undecided("R6", "LOOP", f, "position variable", f"{len(seeks)} `{fobj}.seek(<name>)` calls in the loop: cannot identify the position variable")
+        return
+    POS = seeks[0].args[0].id
+    # every offset is tested: all rebindings of the position inside the loop add exactly 1
+    ups = [(st, v) for st, v in assignments_to(f.node, POS) if any(st is x for x in ast.walk(w))]
+    steps = []
+    for st, v in ups:
+        if isinstance(st, ast.AugAssign) and isinstance(st.op, ast.Add):
+            steps.append(_c(st.value))
+        elif v is not None and sympoly(v) is not None and (sympoly(v) - SymPoly.atom(POS)).is_const():
+            steps.append((sympoly(v) - SymPoly.atom(POS)).const_value())
+        else:
+            steps.append(None)
+    ctx.ob("R6", "LOOP", f, "pos += 1", bool(steps) and all(k == 1 for k in steps), f"position advances by {steps} (exactly 1: every offset is tested)", ups[0][0] if ups else w)
+    # the header: first read of the stream after the seek, 4 bytes
+    reads_all = []
+    for st in statements(w):
+        if isinstance(st, (ast.If, ast.While, ast.For, ast.Try, ast.With)):
+            exprs = [st.test] if isinstance(st, (ast.If, ast.While)) else []
+        else:
+            exprs = [st]
+        for e in exprs:
+            for n in _eval_order(e):
+                if isinstance(n, ast.Call) and isinstance(n.func, ast.Attribute) and n.func.attr == "read" and dotted(n.func.value) == fobj:
+                    reads_all.append((st, n))
+    for k, (_st, n) in enumerate(reads_all):
+        n._rid = k
+    if not reads_all or _c(reads_all[0][1].args[0] if reads_all[0][1].args else None) != 4:
+        ctx.ob("R6", "AGREE", f, "header read", False, f"first read after the seek is {src(reads_all[0][1]) if reads_all else None} (4 bytes required)", w)
+        return
+
+    def rid_of(e, at):
+        """index of the stream read whose bytes expression e holds at `at` (through temporaries), else None"""
+        if e is None:
+            return None
+        if isinstance(e, ast.Call) and hasattr(e, "_rid"):
+            return e._rid
+        if isinstance(e, ast.Name):
+            rd = reaching_defs(ctx, f, e.id, at)
+            ids = {rid_of(v, s2) if v is not None else None for s2, v in rd}
+            return ids.pop() if len(ids) == 1 else None
+        return None
+
+    # header test: le-u32(<header bytes>) == X + 16 with X the position (or a copy of it)
+    hdr = None
+    wrong = []
+    for st in statements(w):
+        if not isinstance(st, ast.If):
+            continue
+        for l, op, r in compare_parts(nnf(st.test)):
+            if not isinstance(op, (ast.Eq, ast.NotEq)):
+                continue
             for a, b in ((l, r), (r, l)):
-                pa = sympoly(a)
-                if pa == SymPoly.atom(POS) + SymPoly.const(16) and isinstance(b, ast.Call):
-                    cal = ctx.rs.resolve_call(f, b)
-                    le32 = cal.kind == "func" and cal.func.fq == "utils.unpack" and _c(cal.bound.get("size")) == 4 and (_c(cal.bound.get("byteorder")) or "little") == "little"
-                    first = bool(reads) and bool(b.args) and _last_def_is(f, b.args[0], reads[0], b) and _c(reads[0].args[0]) == 4
-                    seek = [c for c in ast.walk(w) if isinstance(c, ast.Call) and isinstance(c.func, ast.Attribute) and c.func.attr == "seek" and dotted(c.func.value) == fobj and dotted(c.args[0]) == POS]
-                    h_ok = le32 and bool(first) and bool(seek)
-                    detail = f"header test `{src(t.test)}`: little-endian u32={le32}; of the 4 bytes read at pos={bool(first)}; after fobj.seek(pos)={bool(seek)}"
-                    hdr_if = t
-    ctx.ob("R6", "AGREE", f, "pos + 16 == u32(header)", h_ok, detail)
-    # field reads inside the matching branch: size(4, le u32), xorkey(4), hints(8), payload(size)
-    if h_ok:
-        inner = [c for c in ast.walk(hdr_if) if isinstance(c, ast.Call) and isinstance(c.func, ast.Attribute) and c.func.attr == "read" and dotted(c.func.value) == fobj]
-        inner = [c for c in inner if any(c is x for s2 in hdr_if.body for x in ast.walk(s2))]
-        inner.sort(key=lambda c: (c.lineno, c.col_offset))
-        widths = [src(c.args[0]) if c.args else None for c in inner]
-        ctx.ob("R6", "AGREE", f, "field reads", widths[:3] == ["4", "4", "8"] and len(widths) == 4, f"reads after the header: {widths}; required 4, 4, 8 and the decoded size")
-        ys = [y for y in ast.walk(hdr_if) if isinstance(y, ast.Yield)]
-        y_ok = False
-        detail = "no yield of ArtifactKitPayload in the matching branch"
-        if len(ys) == 1 and isinstance(ys[0].value, ast.Call) and dotted(ys[0].value.func) == "ArtifactKitPayload":
-            kws = {k.arg: k.value for k in ys[0].value.keywords}
-            def is_read(e, i):
-                o = origin(f.node, e)
-                return len(inner) > i and o is inner[i]
-            size_o = origin(f.node, kws.get("size")) if kws.get("size") is not None else None
-            size_ok = isinstance(size_o, ast.Call) and size_o.args and origin(f.node, size_o.args[0]) is (inner[0] if inner else None)
-            if size_ok:
-                cal = ctx.rs.resolve_call(f, size_o)
-                size_ok = cal.kind == "func" and cal.func.fq == "utils.unpack" and _c(cal.bound.get("size")) == 4 and (_c(cal.bound.get("byteorder")) or "little") == "little"
-            pay = origin(f.node, kws.get("payload")) if kws.get("payload") is not None else None
-            pay_ok = isinstance(pay, ast.Call) and ctx.rs.resolve_call(f, pay).fq == "utils.xor" and len(pay.args) == 2 and _last_def_is(f, pay.args[0], inner[3] if len(inner) > 3 else None, pay) and is_read(pay.args[1], 1)
-            y_ok = dotted(kws.get("offset")) == POS and size_ok and is_read(kws.get("xorkey"), 1) and is_read(kws.get("hints"), 2) and pay_ok
-            detail = f"offset=pos={dotted(kws.get('offset')) == POS}; size=le u32 of first read={size_ok}; xorkey=second read={is_read(kws.get('xorkey'), 1)}; hints=third read={is_read(kws.get('hints'), 2)}; payload=xor(<payload read>, <xorkey read>)={pay_ok}"
-        ctx.ob("R6", "AGREE", f, "yield ArtifactKitPayload(...)", y_ok, detail)
+                dec = _decode_int(ctx, f, a)
+                if dec is None or rid_of(dec[0], st) != 0:
+                    continue
+                pb = sympoly(inline(f.node, b, stop=frozenset({POS})))
+                if pb is None:
+                    continue
+                diff = pb - SymPoly.atom(POS)
+                if not diff.is_const():
+                    continue
+                if _le32(ctx, f, a) is None:
+                    wrong.append(f"{src(st.test)} (header decoded as size={dec[1]} byteorder={dec[2]} signed={dec[3]}; little-endian unsigned 32-bit required)")
+                elif diff.const_value() == 16:
+                    hdr = (st, isinstance(op, ast.Eq))
+                else:
+                    wrong.append(f"{src(st.test)} (self-offset {diff.const_value()})")
+    if hdr is None:
+        if wrong:
+            ctx.ob("R6", "AGREE", f, "pos + 16 == u32(header)", False, f"header test is not `le-u32(header) == position + 16`: {wrong}")
+        else:
+            ctx.undecided("R6", "AGREE", f, "pos + 16 == u32(header)", "no test of the little-endian u32 of the 4 header bytes against <position> + 16 found")
+        return
+    hst, eq = hdr
+    ctx.ob("R6", "AGREE", f, "pos + 16 == u32(header)", True, f"header test `{src(hst.test)}`: little-endian u32 of the 4 bytes read at the position equals position + 16", hst)
+    match_edge = cfg.edge_node(hst, "true" if eq else "false")
+    on_match = [(st, n) for st, n in reads_all[1:] if cfg.has(st) and cfg.dominates(match_edge, cfg.node(st))]
+    widths = [src(n.args[0]) if n.args else None for _st, n in on_match]
+    ys = [y for y in ast.walk(w) if isinstance(y, ast.Yield) and cfg.dominates(match_edge, cfg.node(fv.stmt_of(y)))]
+    if len(ys) != 1 or not isinstance(inline(f.node, ys[0].value), ast.Call):
+        ctx.undecided("R6", "AGREE", f, "yield ArtifactKitPayload(...)", f"{len(ys)} yields on the matching path / not a record construction")
+        return
+    yst = fv.stmt_of(ys[0])
+    rec = ys[0].value
+    if isinstance(rec, ast.Name):
+        rd = reaching_defs(ctx, f, rec.id, yst)
+        rec = rd[0][1] if len(rd) == 1 else None
+    cls = ctx.repo.module("artifact").classes.get("ArtifactKitPayload")
+    fields = [s2.target.id for s2 in cls.body if isinstance(s2, ast.AnnAssign) and isinstance(s2.target, ast.Name)] if cls is not None else []
+    if not (isinstance(rec, ast.Call) and dotted(rec.func) == "ArtifactKitPayload" and fields == ["offset", "size", "xorkey", "hints", "payload"]):
+        ctx.undecided("R6", "AGREE", f, "yield ArtifactKitPayload(...)", f"yielded value {src(rec)[:40]} / record fields {fields}")
+        return
+    kws = {}
+    for name, v in zip(fields, rec.args):
+        kws[name] = v
+    for k in rec.keywords:
+        if k.arg:
+            kws[k.arg] = k.value
+    ctx.ob("R6", "AGREE", f, "field reads", widths[:3] == ["4", "4", "8"] and len(widths) == 4, f"reads on the matching path, in evaluation order: {widths}; required 4, 4, 8 and the decoded size")
+    rst = fv.stmt_of(rec) or yst
+    off_ok = dotted(inline(f.node, kws.get("offset"), stop=frozenset({POS}))) == POS if kws.get("offset") is not None else False
+    size_e = kws.get("size")
+    size_src = None
+    if size_e is not None:
+        se = size_e
+        if isinstance(se, ast.Name):
+            rd = reaching_defs(ctx, f, se.id, rst)
+            se = rd[0][1] if len(rd) == 1 else None
+        size_src = _le32(ctx, f, se) if se is not None else None
+    size_ok = size_src is not None and rid_of(size_src, rst) == 1
+    x_ok = rid_of(kws.get("xorkey"), rst) == 2
+    h_ok = rid_of(kws.get("hints"), rst) == 3
+    pay = kws.get("payload")
+    if isinstance(pay, ast.Name):
+        rd = reaching_defs(ctx, f, pay.id, rst)
+        pay, pst = (rd[0][1], rd[0][0]) if len(rd) == 1 else (None, rst)
+    else:
+        pst = rst
+    pay_ok = isinstance(pay, ast.Call) and ctx.rs.resolve_call(f, pay).fq == "utils.xor" and len(pay.args) == 2 and rid_of(pay.args[0], pst) == 4 and rid_of(pay.args[1], pst) == 2
+    # the payload read has the decoded size as its length
+    len_ok = len(on_match) == 4 and on_match[3][1].args and (src(on_match[3][1].args[0]) == src(size_e) or (isinstance(size_e, ast.Name) and dotted(on_match[3][1].args[0]) == size_e.id))
+    y_ok = off_ok and size_ok and x_ok and h_ok and pay_ok and bool(len_ok)
+    ctx.ob("R6", "AGREE", f, "yield ArtifactKitPayload(...)", y_ok,
+           f"offset=position={off_ok}; size=le u32 of the read after the header={size_ok}; xorkey=next read={x_ok}; hints=next read={h_ok}; payload=xor(<read of size bytes>, <xorkey>)={pay_ok and bool(len_ok)}", ys[0])
     # start / limit handling
     mr = [s for s in ast.walk(w) if isinstance(s, ast.If) and "maxrange" in src(s.test)]
     from csverif.astutil import pmatch
     ok = len(mr) == 1 and pmatch("maxrange is not None and $p > maxrange", mr[0].test) == {"p": POS}
-    ctx.ob("R6", "AGREE", f, "maxrange test", ok, f"limit test: {[src(m.test) for m in mr]}")
+    ctx.ob("R6", "AGREE", f, "maxrange test", ok, f"limit test: {[src(m.test) for m in mr]}", undecided=not mr)
 
 
 def _last_def_is(f, name_expr, call, at) -> bool:
